@@ -601,6 +601,15 @@ except Exception as _c14_err:  # reported as `unparsed`, committed Gen files are
         raise ValueError("tools/extract_c14.py not loadable: %s" % _e)
     EXTRACTORS += [(f, _c14_unavailable) for f in ("SegmentFields.lean", "WalTables.lean", "MetaTables.lean", "SchemaTables.lean")]
 
+# C08 / C18: choices of the write-ahead protocol (tools/extract_store.py, same conventions)
+try:
+    import extract_store as _extract_store
+    EXTRACTORS += _extract_store.extractors(sys.modules[__name__])
+except Exception as _store_err:  # reported as `unparsed`, the committed Gen file is kept
+    def _store_unavailable(repo, _e=_store_err):
+        raise ValueError("tools/extract_store.py not loadable: %s" % _e)
+    EXTRACTORS += [("WalProtocol.lean", _store_unavailable)]
+
 
 def regenerate(repo, gen_dir):
     status = {"status": "ok", "files": {}}
